@@ -62,6 +62,15 @@ def make_operation(step):
         return Operation(CSO.Custom, operator=jnp.array(mat_of(step["U"])))
     if g == "FockCustom":
         return Operation(FO.Custom, operator=jnp.array(mat_of(step["U"])))
+    if g == "ExprFock":
+        # exp(i chi n_a (x) n_b^2) on two Fock spaces, written with context entries that depend on the
+        # dimension list they are called with
+        import photon_weave._math.ops as OPS
+        from photon_weave.state.fock import Fock as _F
+        chi = float(p["chi"])
+        ctx = {"na": lambda dims: OPS.number_operator(dims[0]),
+               "nb2": lambda dims: OPS.number_operator(dims[1]) @ OPS.number_operator(dims[1])}
+        return Operation(CO.Expression, expr=("expm", ("s_mult", 1j, chi, ("kron", "na", "nb2"))), state_types=(_F, _F), context=ctx)
     if g == "Expr":
         # CompositeOperationType.Expression over fixed factor matrices (one per operand)
         facs = [jnp.array(mat_of(m)) for m in step["factors"]]
@@ -81,6 +90,12 @@ def expr_tree(form, names):
     if form == "mid" and k >= 3:
         return ("kron", names[0], ("kron", *names[1:-1]), names[-1]) if k > 3 else ("kron", names[0], ("kron", names[1], names[2]))
     return ("kron", *names)
+
+
+def exprfock_matrix(step, dT):
+    chi = float(step["params"]["chi"])
+    d0, d1 = dT
+    return np.diag([np.exp(1j * chi * m * n * n) for m in range(d0) for n in range(d1)])
 
 
 def expr_matrix(step):
@@ -338,8 +353,8 @@ class Runner:
             g = st["gate"]
             # subsystems that the implementation moves to the front of their product space on the way:
             # every operand whose reduced state is read (trace_out -> reorder) and every Fock that is resized
-            if g in COMP_GATES or g == "Expr":
-                focks = list(T) + ([t for t in T if isinstance(w.subs[t], Fock)] if g == "BS" else [])
+            if g in COMP_GATES or g in ("Expr", "ExprFock"):
+                focks = list(T) + ([t for t in T if isinstance(w.subs[t], Fock)] if g == "ExprFock" else []) + ([t for t in T if isinstance(w.subs[t], Fock)] if g == "BS" else [])
             elif g in FOCK_GATES or g == "FockCustom":
                 focks = [T[0], T[0]]
             elif g == "CustomCustom":
@@ -473,7 +488,13 @@ class Runner:
             calls = None
         n0 = len(self.findings)
         self._rejected = False
+        twins = self.value_twins() if self.prog.get("focus") == "C18" else None
         getattr(self, "do_" + kind)(i, st, before)
+        if twins and len(self.findings) > n0:
+            # C18 programs: a call fails while two different subsystems hold equal values
+            for f in list(self.findings[n0:]):
+                if f.prop not in ("C18", "HARNESS"):
+                    self.findings.append(Finding("C18", f"while subsystems {twins[0]} and {twins[1]} hold equal values: {f.msg}", i))
         if len(self.findings) == n0 and not self._rejected and not self.diverged:
             self.route_check(i, st, lay_before, calls)
 
@@ -482,10 +503,12 @@ class Runner:
         w = self.w
         targets = [w.subs[s] for s in st["targets"]]
         gate = st["gate"]
-        multi = len(targets) > 1 or gate in COMP_GATES or gate == "Expr"
+        multi = len(targets) > 1 or gate in COMP_GATES or gate in ("Expr", "ExprFock")
         prop = "C03" if multi else "C01"
         if self.prog.get("focus") == "C11" and gate in ("BS", "PhaseShift"):
             prop = "C11"
+        if self.prog.get("focus") == "C01" and gate == "ExprFock":
+            prop = "C01"  # (O_T (x) I) rho (O_T (x) I)^dagger for an operator built from the operands' dimensions
         if any(getattr(t, "measured", False) for t in targets):
             return self.expect_reject(i, st, before, lambda: self.call_op(st, targets), "C05", "operation on a destroyed subsystem")
         dims_before = {w.sid(s): dims_of(s) for s in w.live()}
@@ -503,7 +526,7 @@ class Runner:
                 need = max(sd[sid], dims_of(t))
                 if gate == "Creation":
                     need = max(need, self.spec_support(sid) + 2)
-                elif gate in ("Annihilation", "PhaseShift", "FockIdentity"):
+                elif gate in ("Annihilation", "PhaseShift", "FockIdentity", "ExprFock"):
                     need = max(need, self.spec_support(sid) + 1)
                 elif gate == "BS":
                     need = max(need, sum(self.spec_support(w.sid(x)) for x in targets) + 1)
@@ -512,10 +535,10 @@ class Runner:
                 self.spec_grow(sid, need)
         self.lean.call(op="save")
         req = dict(op="apply", targets=st["targets"], renorm=self.renorm_of(st))
-        if "U" in st or gate == "Expr":
-            U = mat_of(st["U"]) if "U" in st else expr_matrix(st)
+        if "U" in st or gate in ("Expr", "ExprFock"):
             sd = self.spec_dims()
             dT = [sd[s] for s in st["targets"]]
+            U = mat_of(st["U"]) if "U" in st else expr_matrix(st) if gate == "Expr" else exprfock_matrix(st, dT)
             if U.shape[0] != int(np.prod(dT)):
                 # custom operator smaller/larger than the spec's (possibly larger) Fock space: embed
                 U = embed_op(U, [self.impl_dim_for_custom(t, U) for t in targets], dT)
@@ -574,7 +597,17 @@ class Runner:
         return nz[-1] if nz else 0
 
     def call_op(self, st, targets):
-        op = make_operation(st)
+        # "reuse": the Operation object of an earlier step with the same description is applied again
+        # (an Operation is a reusable description, C15; a stale cache inside it shows up as a wrong state)
+        import json as _json
+        key = _json.dumps({k: st[k] for k in ("gate", "params", "U", "factors", "types", "form") if k in st}, sort_keys=True)
+        cache = self.__dict__.setdefault("op_cache", {})
+        if st.get("reuse") and key in cache:
+            op = cache[key]
+            self.stats["reused_operations"] = self.stats.get("reused_operations", 0) + 1
+        else:
+            op = make_operation(st)
+            cache[key] = op
         en = st.get("entry", "state")
         if en == "state":
             targets[0].apply_operation(op)
@@ -657,6 +690,33 @@ class Runner:
                 return self.call_op(st, targets)
             if what == "outside_container":
                 return self.call_op(st, targets)
+            if what == "foreign_member":
+                t = targets[0]
+                ops = [jnp.array(mat_of(m)) for m in st["ops"]]
+                o = w.envs[st["env"]] if st["how"] == "env" else w.handles[st["h"]]
+                c = st["call"]
+                gate = Operation(FO.PhaseShift, phi=0.4) if isinstance(t, Fock) else Operation(PO.X) if isinstance(t, Polarization) else Operation(CSO.Custom, operator=jnp.eye(t.dimensions))
+                if c == "apply_kraus":
+                    return o.apply_kraus(ops, t)
+                if c == "measure_POVM":
+                    return o.measure_POVM(ops, t)
+                if c == "apply_operation":
+                    return o.apply_operation(gate, t)
+                if c == "trace_out":
+                    return o.trace_out(t)
+                if c == "measure":
+                    return o.measure(t)
+                if c == "reorder":
+                    if st["how"] == "env" and o.state is None:
+                        o.combine()
+                    return o.reorder(t)
+                if c == "combine":
+                    return o.combine(w.subs[st["own"]], t)
+                if c == "resize_fock":
+                    if not isinstance(t, Fock):
+                        raise ValueError("not a Fock space")
+                    return o.resize_fock(t.dimensions + 1, t)
+                raise ValueError(c)
             if what == "shrink_below_support":
                 en = st.get("entry", "state")
                 if en == "state":
@@ -977,6 +1037,11 @@ class Runner:
             missing = expected - set(got)
             fock_twins = [m_ for m_ in missing if isinstance(w.subs[m_], Fock) and any(isinstance(w.subs[x], Fock) and x != m_ for x in expected)]
             self.findings.append(Finding("C18" if fock_twins else "C05", f"measure{st['targets']} via {en} (sep={sep}): outcomes reported for {sorted(got)}, specified {sorted(expected)}" + (" (a Fock holding the same value as another measured Fock was skipped)" if fock_twins else ""), i))
+            extra = sorted(set(got) - expected)
+            if extra:
+                # a subsystem that was not addressed was measured: its block collapsed / lost a member (C20)
+                hit = [b["members"] for b in before if any(x in b["members"] for x in extra) and not any(x in b["members"] for x in expected)]
+                self.findings.append(Finding("C20", f"measure{st['targets']} via {en} (sep={sep}): unaddressed subsystem(s) {extra} were measured as well" + (f"; bystander block(s) {hit} changed" if hit else ""), i))
             return
         # Born rule: match the draws to subsystems (order is the implementation's choice)
         ok = self.match_draws(i, spy.draws, got, des)
@@ -1040,6 +1105,9 @@ class Runner:
         if en == "state":
             return targets[0].measure(separate_measurement=sep, destructive=des)
         if en == "env":
+            if st.get("noargs"):
+                # `env.measure()`: no subsystem named, the whole envelope is measured
+                return targets[0].envelope.measure(separate_measurement=sep, destructive=des)
             return targets[0].envelope.measure(*targets, separate_measurement=sep, destructive=des)
         return self.w.handles[st.get("h", 0)].measure(*targets, separate_measurement=sep, destructive=des)
 
